@@ -95,14 +95,14 @@ def plan(tier, seed):
     fam["ls"] = [dict(NLs=1500 if thorough else 200)]
     # lengths: multiples of the number of shifts (other users on other shifts) AND others (36, 60, 139, 150 for SRS; 32, 40,
     # 139 for DMRS: single user / same-shift cover-code user only)
-    est_ls = ([12, 24, 32, 36, 40, 48, 60, 64, 72, 96, 120, 139, 144, 150, 192, 288, 300, 576] if thorough
+    est_ls = ([12, 24, 32, 36, 40, 48, 60, 64, 72, 96, 120, 139, 144, 150, 192, 288, 300] if thorough
               else [12, 24, 32, 36, 40, 48, 60, 72, 96, 139, 150])
-    nv = 24 if thorough else 6
+    nv = 16 if thorough else 6
     fam["est"] = [dict(EstFams={f}, EstLs=set(est_ls), EstNrx={1, 2, 3, 4}, EstVars=ch)
                   for f in ("srs", "dmrs", "occ") for ch in chunks(range(1, nv + 1), 4 if thorough else 1)]
     if thorough:
         # the largest allocations (50 and 100 resource blocks): boundary, dense and seeded variant, 1 and 4 antennas
-        fam["est"] += [dict(EstFams={f}, EstLs={L}, EstNrx={1, 4}, EstVars={1, 2, 4}) for f in ("srs", "dmrs", "occ") for L in (600, 1200)]
+        fam["est"] += [dict(EstFams={f}, EstLs={L}, EstNrx={1, 4}, EstVars={1, 2, 4}) for f in ("srs", "dmrs", "occ") for L in (576, 600, 1200)]
         return [(f"{k}/{i}", [k], p) for k, ps in fam.items() for i, p in enumerate(ps)]
     # quick: fewer JVMs (start-up and JIT dominate the cost of small runs)
     jobs = [("prime+ext+ls", ["prime", "ext", "ls"], {**fam["prime"][0], **fam["ext"][0], **fam["ls"][0]})]
